@@ -56,6 +56,17 @@ func checkSpans(toks []lexer.Token, src string) {
 		case token.IDENTIFIER, token.INT, token.FLOAT, token.VARIABLE:
 			symx.Observe("tok", int(t.Type()), s, e, t.Literal(), src[s:e])
 			symx.Assert(t.Literal() == src[s:e], "literal-is-source-text")
+		case token.STRING:
+			// an UNESCAPED string: no backslash and none of the characters that start an interpolation
+			plain := true
+			for i := s; i < e; i++ {
+				if src[i] == '\\' || src[i] == '$' || src[i] == '{' || src[i] == '@' {
+					plain = false
+				}
+			}
+			if plain {
+				symx.Assert(t.Literal() == src[s:e], "unescaped-string-literal-is-source-text")
+			}
 		}
 	}
 }
@@ -97,6 +108,8 @@ var sandwiches = [][2]string{
 	{"$a = <<<AB\nv=$o", "\nAB;\n$b = 1;\n$c"},
 	// a multi-line string ending a statement WITHOUT a semicolon (the lexer inserts one)
 	{"$a = \"x", "\ny\"\n$b = 1\n$c"},
+	// a byte literal whose content holds a raw line break
+	{"$a = b'", "';\n$b = 1;\n$c"},
 }
 
 func H_lex_spans_mid() {
